@@ -222,7 +222,62 @@ func buildNetwork(r *rand.Rand, o genOpts) *genNet {
 			}
 		}
 	}
+	g.refusedMuxInserts()
 	return g
+}
+
+// refusedMuxInserts: a refused operation leaves nothing behind.  Every multiplexer of the network
+// with two or more groups is offered a fresh one-bit signal (a) as a FIXED child and (b) as a
+// child of two listed groups, at a position that is free in the lowest group concerned and taken
+// in a higher one (read through the public getters): the call must be refused, and the network —
+// which every stream goes on to export, save, decode or walk — must be what it was before.
+func (g *genNet) refusedMuxInserts() {
+	free := func(mx *acmelib.MultiplexerSignal, grp, pos int) bool {
+		for _, s := range mx.GetSignalGroup(grp) {
+			if s.GetRelativeStartPos() <= pos && pos < s.GetRelativeStartPos()+s.GetSize() {
+				return false
+			}
+		}
+		return true
+	}
+	n := 0
+	for _, sg := range append([]acmelib.Signal{}, g.sigs...) {
+		mx, err := sg.ToMultiplexer()
+		if err != nil || mx == nil || mx.GroupCount() < 2 || mx.GroupCount() > 64 {
+			continue
+		}
+		for pos := 0; pos < mx.GroupSize(); pos++ {
+			if !free(mx, 0, pos) {
+				continue
+			}
+			hi := -1
+			for k := mx.GroupCount() - 1; k >= 1; k-- {
+				if !free(mx, k, pos) {
+					hi = k
+					break
+				}
+			}
+			if hi < 0 {
+				continue
+			}
+			n++
+			for variant := 0; variant < 2; variant++ {
+				probe, err := acmelib.NewStandardSignal(sprintf("zz_refused_%d_%d", n, variant), acmelib.NewFlagSignalType("zz_refused_flag"))
+				if err != nil {
+					continue
+				}
+				if variant == 0 {
+					err = mx.InsertSignal(probe, pos)
+				} else {
+					err = mx.InsertSignal(probe, pos, 0, hi)
+				}
+				if err == nil {
+					_ = mx.RemoveSignal(probe.EntityID()) // accepted after all: not what this probe is about
+				}
+			}
+			break
+		}
+	}
 }
 
 func (g *genNet) assign(r *rand.Rand, x interface {
